@@ -156,7 +156,7 @@ func c02(c *Ctx) {
 	}
 
 	// ---- R02.S / R02.M --------------------------------------------------------------------------
-	c02Strings(c, tr)
+	c02Strings(c, tr, "R02.S", "R02.M", "")
 }
 
 func parseLine(line string) (uint32, string, bool) {
@@ -183,12 +183,12 @@ func parseLine(line string) (uint32, string, bool) {
 
 func roundUp4(n int64) int64 { return (n + 3) &^ 3 }
 
-func c02Strings(c *Ctx, tr *an.Tracer) {
+func c02Strings(c *Ctx, tr *an.Tracer, RS, RM, kp string) {
 	r := c.R
-	pm := c.fn("R02.S", load.TLPkg, "*Encoder", "PutMessage")
-	tiny := c.fn("R02.S", load.TLPkg, "*Encoder", "putTinyBytes")
-	large := c.fn("R02.S", load.TLPkg, "*Encoder", "putLargeBytes")
-	pop := c.fn("R02.S", load.TLPkg, "*Decoder", "PopMessage")
+	pm := c.fn(RS, load.TLPkg, "*Encoder", "PutMessage")
+	tiny := c.fn(RS, load.TLPkg, "*Encoder", "putTinyBytes")
+	large := c.fn(RS, load.TLPkg, "*Encoder", "putLargeBytes")
+	pop := c.fn(RS, load.TLPkg, "*Decoder", "PopMessage")
 	if pm == nil || tiny == nil || large == nil || pop == nil {
 		return
 	}
@@ -221,7 +221,7 @@ func c02Strings(c *Ctx, tr *an.Tracer) {
 				bad = append(bad, sprintf("len=%d → tiny=%v large=%v", n, toTiny, toLarge))
 			}
 		}
-		r.Check(len(bad) == 0, "R02.S", "switch:PutMessage@254", c.pos(pm.Pos()), "lengths below 254 use the 1-byte header, 254 and above the 4-byte header: "+strings.Join(bad, "; "))
+		r.Check(len(bad) == 0, RS, kp+"switch:PutMessage@254", c.pos(pm.Pos()), "lengths below 254 use the 1-byte header, 254 and above the 4-byte header: "+strings.Join(bad, "; "))
 	}
 	writeSite := func(f *ssa.Function) (ssa.Instruction, *ssa.MakeSlice) {
 		for _, cs := range an.Calls(f) {
@@ -235,7 +235,7 @@ func c02Strings(c *Ctx, tr *an.Tracer) {
 	}
 	// putTinyBytes: buffer size and header byte for every n in 0..253
 	if w, ms := writeSite(tiny); w == nil {
-		r.Undecide("R02.S", "tiny:layout", c.pos(tiny.Pos()), "the buffer handed to write() was not found")
+		r.Undecide(RS, kp+"tiny:layout", c.pos(tiny.Pos()), "the buffer handed to write() was not found")
 	} else {
 		var bad []string
 		for n := int64(0); n < 254; n++ {
@@ -264,11 +264,11 @@ func c02Strings(c *Ctx, tr *an.Tracer) {
 		if len(bad) > 4 {
 			bad = append(bad[:4], sprintf("…(%d)", len(bad)))
 		}
-		r.Check(len(bad) == 0, "R02.S", "tiny:layout", c.pos(tiny.Pos()), "tabulated for len 0..253: "+strings.Join(bad, "; "))
+		r.Check(len(bad) == 0, RS, kp+"tiny:layout", c.pos(tiny.Pos()), "tabulated for len 0..253: "+strings.Join(bad, "; "))
 	}
 	// putLargeBytes
 	if w, ms := writeSite(large); w == nil {
-		r.Undecide("R02.S", "large:layout", c.pos(large.Pos()), "the buffer handed to write() was not found")
+		r.Undecide(RS, kp+"large:layout", c.pos(large.Pos()), "the buffer handed to write() was not found")
 	} else {
 		var bad []string
 		for _, n := range []int64{254, 255, 256, 257, 258, 65535, 65536, 1<<24 - 2, 1<<24 - 1} {
@@ -323,7 +323,7 @@ func c02Strings(c *Ctx, tr *an.Tracer) {
 		if !okCopy {
 			bad = append(bad, "the payload is not copied to offset 4")
 		}
-		r.Check(len(bad) == 0, "R02.S", "large:layout", c.pos(large.Pos()), "tabulated for 9 lengths up to 2^24-1: "+strings.Join(bad, "; "))
+		r.Check(len(bad) == 0, RS, kp+"large:layout", c.pos(large.Pos()), "tabulated for 9 lengths up to 2^24-1: "+strings.Join(bad, "; "))
 
 		// ---- R02.M ------------------------------------------------------------------------------
 		var mbad []string
@@ -336,7 +336,9 @@ func c02Strings(c *Ctx, tr *an.Tracer) {
 				mbad = append(mbad, sprintf("a %d-byte string is %s (3 length bytes hold at most 2^24-1)", tc.n, map[bool]string{true: "written", false: "refused"}[reach[w.Block()]]))
 			}
 		}
-		r.Check(len(mbad) == 0, "R02.M", "refuse-at-2^24", c.pos(large.Pos()), strings.Join(mbad, "; "))
+		if RM != "" {
+			r.Check(len(mbad) == 0, RM, kp+"refuse-at-2^24", c.pos(large.Pos()), strings.Join(mbad, "; "))
+		}
 	}
 	// PopMessage: marker constant, sizes
 	{
@@ -407,7 +409,7 @@ func c02Strings(c *Ctx, tr *an.Tracer) {
 				}
 			}
 		}
-		r.Check(len(bad) == 0, "R02.S", "reader:PopMessage", c.pos(pop.Pos()), strings.Join(bad, "; "))
+		r.Check(len(bad) == 0, RS, kp+"reader:PopMessage", c.pos(pop.Pos()), strings.Join(bad, "; "))
 	}
 }
 
